@@ -24,6 +24,10 @@ Corruptions(b) ==
     \cup {[kind |-> "cnt", row |-> r, to |-> n] : r \in DOMAIN b.table, n \in ({NCols + 1, NCols - 1, 0, -1} \ {NCols})}
     \cup {[kind |-> "trunc", at |-> p] : p \in 0..(Len(FullStream(b)) - 1)}
     \cup {[kind |-> "len", row |-> r, col |-> j] : r \in DOMAIN b.table, j \in 1..NCols}
+    \* a value of the wrong size for a fixed-width column (a column with an empty field is text-like)
+    \cup {c \in [kind : {"width"}, row : DOMAIN b.table, col : 1..NCols, how : {"short", "long"}] :
+              /\ b.table[c.row][c.col].c = "v" /\ b.table[c.row][c.col].n = 2
+              /\ \A x \in DOMAIN b.table : b.table[x][c.col].c # "e"}
 
 SubsetsUpTo(S, n) == {T \in SUBSET S : Cardinality(T) <= n}
 
